@@ -1427,6 +1427,37 @@ impl<'a> Run<'a> {
             }
         }
 
+        // ---- C04: an open connection released by a finished request is kept. A connection that
+        // was destroyed in this step while the pool is alive, although it is an open, non-upgraded
+        // HTTP/1 connection all of whose exchanges were delivered, was thrown away by the pool
+        // (no idle limit or idle timeout can be the reason under the conditions below).
+        if self.svc.is_some() && !matches!(step, Step::DropService) && self.case.cfg.max_idle >= 16 && self.case.cfg.idle_timeout_ms.is_none() {
+            let found = {
+                let w = self.w.lock();
+                let now = w.step;
+                w.conns
+                    .iter()
+                    .find(|c| {
+                        c.destroyed_step == Some(now)
+                            && !c.h2
+                            && c.open
+                            && !c.upgraded
+                            && c.handoffs > 0
+                            && w.exchs.iter().any(|e| e.conn == c.id)
+                            && w.exchs.iter().filter(|e| e.conn == c.id).all(|e| e.state == AsyncState::Taken)
+                    })
+                    .map(|c| (c.id, c.origin.clone(), c.busy))
+            };
+            if let Some((c, o, busy)) = found {
+                self.viol(
+                    "C04",
+                    "released_connection_destroyed",
+                    json!({"busy_at_release": busy}),
+                    format!("open HTTP/1 connection {} to {} was destroyed by the pool after its request had finished (every response on it was delivered; still receiving the body at release: {})", c, o, busy),
+                );
+            }
+        }
+
         // ---- C15: retained idle connections per origin
         {
             let w = self.w.lock();
